@@ -285,6 +285,9 @@ impl Check for C10 {
             Tier::Thorough => 1500.0,
         }
     }
+    fn isolate(&self) -> bool {
+        true
+    }
     fn generate(&self, rng: &mut Rng, tier: Tier, i: u64) -> J {
         if i % 2 == 1 {
             return gen_e4(rng);
